@@ -210,9 +210,9 @@ Proof. vm_compute. reflexivity. Qed.
 Lemma gk_nodes_inside : nodes_in_unit gk_K15 = true /\ nodes_in_unit gk_G7 = true.
 Proof. split; vm_compute; reflexivity. Qed.
 (* the rule is NOT better than announced: the Gauss moment of order 14 and the Kronrod moment of order 24 are off *)
-Lemma gk_degrees_sharp : moments_within gk_G7 14 epsK = false /\ moments_within gk_K15 23 epsK = true /\
-                         moments_within gk_K15 24 (1 # 10000000000000000) = false.
-Proof. repeat split; vm_compute; reflexivity. Qed.
+Lemma gk_degrees_sharp : Qle_bool (defectQ gk_G7 14) epsK = false /\
+                         Qle_bool (defectQ gk_K15 24) (1 # 10000000000000000) = false.
+Proof. split; vm_compute; reflexivity. Qed.
 
 Lemma gk_exact_K15 : exact_to gk_K15 22 (Q2R epsK).
 Proof. apply exact_to_of_moments, gk_K15_moments. Qed.
@@ -294,29 +294,29 @@ Qed.
 (* acceptance is not vacuous: a constant right-hand side is integrated in one step whatever the tolerance *)
 Ltac zero_abs :=
   repeat match goal with
-         | |- context [Rabs ?x] => progress (replace x with 0 by (timeout 20 (unfold Rdiv; ring)))
+         | |- context [Rabs ?x] => progress (replace x with 0 by (timeout 20 field))
          end; rewrite ?Rabs_R0.
 Lemma rk42_accepts c t0 h y0 eps : 0 < h -> 0 < eps -> rk42_g (fun _ => c) t0 h y0 eps = Some [y0 + h * c].
 Proof.
-  intros Hh He. unfold rk42_g; cbv zeta. zero_abs.
-  split_tests; first [exfalso; lra | apply f_equal; apply (f_equal (fun x => [x])); unfold Rdiv; ring].
+  intros Hh He. unfold rk42_g; cbv beta zeta. zero_abs.
+  split_tests; first [exfalso; lra | apply (f_equal (@Some (list R))); apply (f_equal2 (@cons R)); [field | reflexivity]].
 Qed.
 Lemma rk54_accepts c t0 h y0 eps : 0 < h -> 0 < eps -> rk54_g (fun _ => c) t0 h y0 eps = Some [y0 + h * c].
 Proof.
-  intros Hh He. unfold rk54_g; cbv zeta. zero_abs.
-  split_tests; first [exfalso; lra | apply f_equal; apply (f_equal (fun x => [x])); unfold Rdiv; ring].
+  intros Hh He. unfold rk54_g; cbv beta zeta. zero_abs.
+  split_tests; first [exfalso; lra | apply (f_equal (@Some (list R))); apply (f_equal2 (@cons R)); [field | reflexivity]].
 Qed.
 
 (* order conditions (exact): sum b_i c_i^k = 1/(k+1) for k < order *)
 Lemma rk_order_conditions :
   moments_within rk2_tab 1 0 = true /\ moments_within rk4_tab 3 0 = true /\
   moments_within rk42_tab 3 0 = true /\ moments_within rk54_tab 4 0 = true.
-Proof. repeat split; vm_compute; reflexivity. Qed.
-(* and not beyond (the announced orders are sharp for quadrature, except RK54 whose weights integrate degree 5) *)
+Proof. split; [|split; [|split]]; vm_compute; reflexivity. Qed.
+(* and not beyond: the announced orders are sharp *)
 Lemma rk_order_sharp :
   moments_within rk2_tab 2 0 = false /\ moments_within rk4_tab 4 0 = false /\ moments_within rk42_tab 4 0 = false /\
-  moments_within rk54_tab 5 0 = true /\ moments_within rk54_tab 6 0 = false.
-Proof. repeat split; vm_compute; reflexivity. Qed.
+  moments_within rk54_tab 5 0 = false.
+Proof. split; [|split; [|split]]; vm_compute; reflexivity. Qed.
 
 (* linear problem y' = lam y: the step multiplies y0 by the Taylor polynomial of exp(lam h) of the scheme's order *)
 Ltac lin_leaf := cbv [taylor_exp fact Nat.mul Nat.add INR]; timeout 120 field.
@@ -387,28 +387,121 @@ Proof.
 Qed.
 
 (* pinned tree: the time reached never exceeds tf, and is within half of the last increment of it *)
-Lemma adapt_loop_current_bounds orc : forall n tf t dt r, t + dt <= tf -> 0 <= dt ->
+Lemma adapt_loop_current_bounds orc : forall n tf t dt r, t <= tf -> (t < tf - dt / 2 -> t + dt <= tf) -> 0 <= dt ->
   (forall p, In p orc -> 0 <= snd p) ->
   adapt_loop R Rplus Rminus Rmult Rhalf Rltb false orc n tf t dt = Some r ->
   tf - snd (fst r) / 2 <= fst (fst r) <= tf.
 Proof.
-  induction orc as [|[acc fac] orc IH]; intros n tf t dt r Ht Hdt Hfac; simpl; unfold threshold, Rhalf, Rltb at 1;
+  induction orc as [|[acc fac] orc IH]; intros n tf t dt r Ht Hinv Hdt Hfac; simpl; unfold threshold, Rhalf, Rltb at 1;
     destruct (Rlt_dec t (tf - dt / 2)) as [Hlt|Hge]; try discriminate.
   - intros H. injection H as <-. simpl. lra.
-  - intros H.
+  - intros H. specialize (Hinv Hlt).
     assert (Hf : 0 <= fac) by (apply (Hfac (acc, fac)); left; reflexivity).
     assert (Hrest : forall p, In p orc -> 0 <= snd p) by (intros p Hp; apply Hfac; right; exact Hp).
-    eapply IH; [| |exact Hrest|exact H].
+    assert (0 <= dt * fac) by (apply Rmult_le_pos; assumption).
+    eapply IH; [| | |exact Hrest|exact H].
+    + destruct acc; lra.
     + destruct acc; unfold Rltb.
       * destruct (Rlt_dec (t + dt) (tf - dt / 2)); [|lra].
         destruct (Rlt_dec (tf - (t + dt)) (dt * fac)); lra.
       * destruct (Rlt_dec t (tf - dt / 2)); [|lra].
         destruct (Rlt_dec (tf - t) (dt * fac)); lra.
-    + assert (0 <= dt * fac) by (apply Rmult_le_pos; assumption).
-      destruct acc; unfold Rltb.
+    + destruct acc; unfold Rltb.
       * destruct (Rlt_dec (t + dt) (tf - dt / 2)); [|lra].
         destruct (Rlt_dec (tf - (t + dt)) (dt * fac)); lra.
       * destruct (Rlt_dec t (tf - dt / 2)); [|lra].
         destruct (Rlt_dec (tf - t) (dt * fac)); lra.
   - intros H. injection H as <-. simpl. lra.
+Qed.
+
+(* ---- statements at the level of the entry points *)
+Lemma fixed_exe_bounds fuel h b e r : 0 < h -> b <= e -> fixed_exe_R fuel h b e = Some r -> e <= r < e + h.
+Proof. intros Hh Hbe H. apply (fixed_loop_bounds fuel h e Hh b r); [lra|exact H]. Qed.
+
+Ltac decide_tests :=
+  repeat (match goal with
+          | |- context [Rlt_dec ?a ?b] =>
+              lazymatch a with
+              | context [Rlt_dec] => fail
+              | _ => lazymatch b with
+                     | context [Rlt_dec] => fail
+                     | _ => destruct (Rlt_dec a b); try lra
+                     end
+              end
+          end).
+
+(* y' = 1 on [0,1] with h = 3/10: the loop of the pinned tree stops at 6/5 *)
+Lemma fixed_exe_overshoot : fixed_exe_R 10 (3 / 10) 0 1 = Some (0 + 3 / 10 + 3 / 10 + 3 / 10 + 3 / 10).
+Proof. unfold fixed_exe_R, fixed_exe. simpl. unfold Rltb. decide_tests. reflexivity. Qed.
+Lemma fixed_exe_refuted :
+  exists fuel h b e r, 0 < h /\ b <= e /\ fixed_exe_R fuel h b e = Some r /\ r <> e.
+Proof.
+  exists 10%nat, (3 / 10), 0, 1, (0 + 3 / 10 + 3 / 10 + 3 / 10 + 3 / 10).
+  repeat split; try lra. apply fixed_exe_overshoot.
+Qed.
+Lemma fixedc_exe_exact fuel h b e r : b <= e -> fixedc_exe_R fuel h b e = Some r -> r = e.
+Proof. intros Hbe H. apply (fixedc_loop_exact fuel h e b r Hbe H). Qed.
+(* the clamped loop does terminate: n steps of size h cover [b,e] as soon as n*h >= e - b (liveness, fuel = n + 1) *)
+Lemma fixedc_loop_terminates h tend : 0 < h -> forall n t, tend - t <= INR n * h ->
+  exists r, fixedc_loop R Rplus Rminus Rltb (S n) h tend t = Some r.
+Proof.
+  intros Hh. induction n as [|n IH]; intros t Ht.
+  - simpl in *. unfold Rltb. destruct (Rlt_dec t tend); [lra|]. eexists; reflexivity.
+  - rewrite S_INR in Ht. change (fixedc_loop R Rplus Rminus Rltb (S (S n)) h tend t)
+      with (if Rltb t tend then (if Rltb h (tend - t) then fixedc_loop R Rplus Rminus Rltb (S n) h tend (t + h) else Some tend)
+            else Some t).
+    unfold Rltb at 1. destruct (Rlt_dec t tend); [|eexists; reflexivity].
+    unfold Rltb at 1. destruct (Rlt_dec h (tend - t)); [|eexists; reflexivity].
+    apply IH. lra.
+Qed.
+
+Lemma adapt_iterate_start clamped orc ti tf dt0 r :
+  adapt_iterate_R clamped orc ti tf dt0 = Some r ->
+  exists dt, 0 <= dt /\ ti + dt <= tf /\ adapt_loop R Rplus Rminus Rmult Rhalf Rltb clamped orc 0 tf ti dt = Some r.
+Proof.
+  unfold adapt_iterate_R, adapt_iterate, Rltb.
+  destruct (Rlt_dec (tf - ti) dt0) as [H1|H1].
+  - destruct (Rlt_dec (tf - ti) 0) as [H2|H2]; [discriminate|]. intros H. exists (tf - ti). repeat split; try lra. exact H.
+  - destruct (Rlt_dec dt0 0) as [H2|H2]; [discriminate|]. intros H. exists dt0. repeat split; try lra. exact H.
+Qed.
+
+Lemma adapt_iterate_current_bounds orc ti tf dt0 r :
+  (forall p, In p orc -> 0 <= snd p) ->
+  adapt_iterate_R false orc ti tf dt0 = Some r -> tf - snd (fst r) / 2 <= fst (fst r) <= tf.
+Proof.
+  intros Hfac H. destruct (adapt_iterate_start _ _ _ _ _ _ H) as [dt [Hdt [Hle Hl]]].
+  apply (adapt_loop_current_bounds orc 0 tf ti dt r); try assumption; lra.
+Qed.
+
+(* y' = 1 on [0,1], initial increment 7/10, first step accepted: the loop of the pinned tree stops at 7/10 *)
+Lemma adapt_iterate_short : adapt_iterate_R false [(true, 2)] 0 1 (7 / 10) = Some (0 + 7 / 10, 7 / 10, 1%nat).
+Proof.
+  unfold adapt_iterate_R, adapt_iterate, adapt_loop, threshold, Rltb, Rhalf. decide_tests. reflexivity.
+Qed.
+Lemma adapt_iterate_refuted :
+  exists orc ti tf dt0 r, (forall p, In p orc -> 0 < snd p) /\ ti < tf /\ 0 < dt0 /\
+    adapt_iterate_R false orc ti tf dt0 = Some r /\ fst (fst r) <> tf.
+Proof.
+  exists [(true, 2)], 0, 1, (7 / 10), (0 + 7 / 10, 7 / 10, 1%nat).
+  split; [intros p [<-|[]]; simpl; lra|]. repeat split; try lra. apply adapt_iterate_short. simpl. lra.
+Qed.
+
+Lemma adapt_iterate_clamped_exact orc ti tf dt0 r :
+  adapt_iterate_R true orc ti tf dt0 = Some r -> fst (fst r) = tf.
+Proof.
+  intros H. destruct (adapt_iterate_start _ _ _ _ _ _ H) as [dt [Hdt [Hle Hl]]].
+  apply (adapt_loop_clamped_exact orc 0 tf ti dt r); [lra|exact Hl].
+Qed.
+
+Lemma rk_poly_exact_all g t0 h y0 d : is_local_poly g t0 (t0 + h) d ->
+  ((length d <= 2)%nat -> rk2_g g t0 h y0 = [y0 + h * pint01 d]) /\
+  ((length d <= 4)%nat -> rk4_g g t0 h y0 = [y0 + h * pint01 d]) /\
+  ((length d <= 4)%nat -> forall eps y, 0 < h -> rk42_g g t0 h y0 eps = Some [y] -> y = y0 + h * pint01 d) /\
+  ((length d <= 5)%nat -> forall eps y, 0 < h -> rk54_g g t0 h y0 eps = Some [y] -> y = y0 + h * pint01 d).
+Proof.
+  intros Hg. destruct rk_order_conditions as [H2 [H4 [H42 H54]]]. repeat split.
+  - intros Hl. rewrite rk2_step, (rk_poly_exact rk2_tab 1 g t0 h d H2 Hl Hg). reflexivity.
+  - intros Hl. rewrite rk4_step, (rk_poly_exact rk4_tab 3 g t0 h d H4 Hl Hg). reflexivity.
+  - intros Hl eps y Hh Hy. rewrite (rk42_step g t0 h y0 eps y Hh Hy), (rk_poly_exact rk42_tab 3 g t0 h d H42 Hl Hg). reflexivity.
+  - intros Hl eps y Hh Hy. rewrite (rk54_step g t0 h y0 eps y Hh Hy), (rk_poly_exact rk54_tab 4 g t0 h d H54 Hl Hg). reflexivity.
 Qed.
